@@ -73,6 +73,24 @@ theorem tie_call_order :
     Generated.C18.electLeaderCalls = ["append", "len"] := by
   decide
 
+/-- event delivery inside the master and state publishing, as the source says now:
+`EmitEvent` is the blocking send `m.events <- event` (no `default:` arm, nothing dropped) — the
+assumption `events_fifo_lossless` rests on —, `consumeEvent` hands every received event to
+`processEvent`, and `syncState` marshals the state, writes it and returns the write's error
+(no early return, no bookkeeping before the write). -/
+theorem tie_event_delivery :
+    Generated.C18.emitEventShape = ["send m.events <- event"] ∧
+    Generated.C18.consumeEventShape = ["for", "{", "select", "{", "case assign event = recv m.events",
+      "call m.processEvent", "case recv m.ctx.Done()", "return", "}", "}"] ∧
+    0 < Generated.C18.eventsCap := by
+  decide
+
+theorem tie_syncState :
+    Generated.C18.syncStateShape = ["assign ctx,cancel = call context.WithTimeout", "defer cancel",
+      "assign data = call encoding.JSONMarshal", "if", "assign err = call masterRepo.Put",
+      "cond err != nil", "{", "return err", "}", "return nil"] := by
+  decide
+
 /-! ## 2. Every shard gets exactly `rf` distinct nodes of the live list -/
 
 /-- what the property demands of one shard's replica list -/
@@ -404,6 +422,47 @@ theorem created_on_live_nodes_all_online (es : List Event) (hw : ∀ e ∈ es, W
   have hon : s.state = stOnline := hso.online_iff.mpr ⟨r0, hr0, hlive r0 (hsub r0 hr0)⟩
   obtain ⟨l, k1, k2, k3⟩ := hso.leader_ok hon
   exact ⟨hon, l, k1, k2, hso.replicas_eq ▸ k3⟩
+
+/-! ## 7. Delivery from `EmitEvent` to `processEvent` -/
+
+/-- `events_fifo_lossless`: for every channel capacity and every interleaving of `EmitEvent` calls
+(blocking when the channel is full) with the consumer goroutine's steps, the manager's state
+followed by the still-queued events is the state after ALL emitted events in emission order; in
+particular once the queue is drained the state is `run St.init emitted` — nothing is lost,
+duplicated or reordered. -/
+theorem events_fifo_lossless (cap : Nat) (as : List QAction) :
+    let q := qrun cap QSt.init as
+    run q.st q.queue = run St.init q.emitted ∧ (q.queue = [] → q.st = run St.init q.emitted) := by
+  intro q
+  have h : QInv q := qinv_run cap as QSt.init qinv_init
+  exact ⟨h, fun hq => by unfold QInv at h; rw [hq] at h; exact h⟩
+
+/-- the leadership statement at every quiescent point of every emit/consume schedule, with
+"alive" read off the emitted events -/
+theorem churn_leadership_queued (cap : Nat) (as : List QAction)
+    (hw : ∀ e, QAction.emit e ∈ as → WellFormed e) :
+    let q := qrun cap QSt.init as
+    q.queue = [] →
+    ∀ db ss, (db, ss) ∈ q.st.shards → ∀ sid s, (sid, s) ∈ ss →
+      ∃ a rs, (db, a) ∈ q.st.asg ∧ (sid, rs) ∈ a ∧
+        (s.state = stOnline ↔ ∃ r, r ∈ rs ∧ aliveAfter r q.emitted false = true) ∧
+        (s.state = stOnline → ∃ l : Nat, s.leader = (l : Int) ∧ aliveAfter l q.emitted false = true ∧ l ∈ rs) ∧
+        (s.state ≠ stOnline → s.state = stOffline ∧ s.leader = -1) := by
+  intro q hq
+  have hst : q.st = run St.init q.emitted := (events_fifo_lossless cap as).2 hq
+  have hwf : ∀ e ∈ q.emitted, WellFormed e :=
+    emitted_run cap WellFormed as QSt.init hw (fun e he => by simp [QSt.init] at he)
+  rw [hst]
+  exact churn_leadership_events q.emitted hwf
+
+/-- non-vacuity: with capacity 2 a third `EmitEvent` blocks until the consumer took one; after
+draining, both node events and the assignment have been applied -/
+example :
+    let q := qrun 2 QSt.init [.emit (.nodeUp 1), .emit (.assignChanged 0 [(0, [1])]), .emit (.nodeDown 1),
+      .consume, .emit (.nodeDown 1), .consume, .consume]
+    q.queue = [] ∧ q.emitted.length = 3 ∧
+      q.st.shards = [(0, [(0, { state := stOffline, leader := -1, replicas := [1] })])] := by
+  decide
 
 /-! ## Non-vacuity -/
 
